@@ -8,16 +8,22 @@ meta = json.load(open(f"{d}/meta.json"))
 props = [meta["property"]] + sys.argv[2:]
 def sh(cmd, **kw):
     return subprocess.run(cmd, shell=True, capture_output=True, text=True, **kw)
-if sh("git -C /repo status --short").stdout.strip():
-    sys.exit("/repo not clean")
-r = sh(f"git -C /repo apply {d}/patch.diff")
+# the change is applied in a scratch worktree (outside /repo and /verif) and the checks are pointed at it through PYMOTO_REPO,
+# so that other work running against /repo is not disturbed
+wt = f"/tmp/eval_{mid}"
+sh(f"git -C /repo worktree remove --force {wt}")
+r = sh(f"git -C /repo worktree add --detach {wt} HEAD")
 if r.returncode != 0:
+    sys.exit("cannot create worktree: " + r.stderr)
+r = sh(f"git -C {wt} apply {d}/patch.diff")
+if r.returncode != 0:
+    sh(f"git -C /repo worktree remove --force {wt}")
     sys.exit("patch does not apply: " + r.stderr)
 try:
-    env = dict(os.environ, VERIF_SEED=os.environ.get("VERIF_SEED", "0"))
+    env = dict(os.environ, VERIF_SEED=os.environ.get("VERIF_SEED", "0"), PYMOTO_REPO=wt)
     meta.setdefault("detection", {})
-    dm = subprocess.run(["/venv/bin/python", f"{d}/demo.py"], cwd="/repo", capture_output=True, text=True,
-                        env=dict(os.environ, PYTHONPATH="/repo", OMP_NUM_THREADS="1"), timeout=1800)
+    dm = subprocess.run(["/venv/bin/python", f"{d}/demo.py"], cwd=wt, capture_output=True, text=True,
+                        env=dict(os.environ, PYTHONPATH=wt, OMP_NUM_THREADS="1"), timeout=1800)
     meta["demo_rc_on_current_head_with_change"] = dm.returncode
     for p in props:
         c = subprocess.run(["./check", p, "--tier", "quick"], cwd="/verif", capture_output=True, text=True, env=env)
@@ -35,5 +41,5 @@ try:
         meta["detection"][p] = {"rc": c.returncode, "lines": lines, "witness": replay, "seed": env["VERIF_SEED"]}
         print(mid, p, "rc", c.returncode, lines[-1][:200] if lines else "")
 finally:
-    sh("git -C /repo checkout -- .")
+    sh(f"git -C /repo worktree remove --force {wt}")
 json.dump(meta, open(f"{d}/meta.json", "w"), indent=1)
